@@ -411,7 +411,7 @@ class Check:
         return exe
 
     # ------------------------------------------------------ weak-memory search
-    def wm_litmus(self, name, imports, safe_expr, progs_expr, bad_expr, what):
+    def wm_litmus(self, name, imports, safe_expr, progs_expr, bad_expr, what, machine="TSO"):
         """evaluates a boolean litmus check of coq/WM inside Coq (vm_compute).  When it is false the
         extracted... no: the same Coq session searches a witness schedule (WM.TSO.witness) - a model-level
         execution on the store-buffer machine - and the violation is reported with it as the replay."""
@@ -419,8 +419,9 @@ class Check:
         os.makedirs(d, exist_ok=True)
         src = os.path.join(d, "L_%s_%s.v" % (self.prop, re.sub(r"\W", "_", name)))
         open(src, "w").write(
-            "From Coq Require Import ZArith List Bool. Import ListNotations.\n"
-            "Require Import Verif.Base.Atomics Verif.WM.TSO Verif.WM.Litmus.\n" + imports + "\n"
+            "From Coq Require Import ZArith List Bool. Import ListNotations.\n" +
+            ("Require Import Verif.Base.Atomics Verif.WM.TSO Verif.WM.Litmus.\n" if machine == "TSO" else
+             "Require Import Verif.Base.Atomics Verif.WM.RA Verif.WM.RALitmus.\n") + imports + "\n"
             "Eval vm_compute in (%s).\nEval vm_compute in (witness (%s) (%s)).\n" % (safe_expr, progs_expr, bad_expr))
         with Lock("coq"):
             rc, out, err = sh(["coqc", "-Q", COQ, "Verif", src], cwd=d, timeout=300)
@@ -432,8 +433,9 @@ class Check:
         self.notes.setdefault("wm_litmus", {})[name] = {"safe": safe, "expr": safe_expr}
         if not safe:
             wit = " ".join(vals[1].split()) if len(vals) > 1 else "?"
-            self.violate("wm-" + name, what + " (store-buffer machine, model-level execution): schedule " + wit,
-                         {"level": "model", "machine": "coq/WM/TSO.v", "litmus": name, "programs": progs_expr,
+            mname = "store-buffer machine" if machine == "TSO" else "release/acquire view machine"
+            self.violate("wm-" + name, what + " (%s, model-level execution): schedule %s" % (mname, wit),
+                         {"level": "model", "machine": "coq/WM/%s.v" % machine, "litmus": name, "programs": progs_expr,
                           "schedule": wit})
         return safe
 
